@@ -48,6 +48,12 @@ let parse_op (t : string) : op =
      | 'O' -> OLocation (c, a 0)
      | 'Y' -> OReg (c, a 0)
      | 'X' -> ORemove (c, a 0)
+     | 'T' -> OTz (c, a 0)
+     | 't' -> OTts (c, a 0)
+     | 'I' -> OIcd (c, a 0)
+     | 'o' -> OOta (c, a 0)
+     | 's' -> OScene (c, a 0)
+     | 'D' -> OSub (c, a 0)
      | _ -> failwith ("bad op " ^ t))
 
 let opt_str = function None -> "-" | Some x -> s_of_n x
@@ -65,7 +71,12 @@ let cells_str (r : ram) : string =
   let nets = Printf.sprintf "W=%d:%s" (if r.r_nets.n_managed then 1 else 0) (join (List.map s_of_n r.r_nets.n_ids)) in
   let labels = "U=" ^ (if r.r_labels = N0 then "-" else "1." ^ s_of_n r.r_labels) in
   let binds = "D=" ^ join (List.map (fun (f, t) -> "1." ^ s_of_n f ^ "." ^ s_of_n t) (sort_by_key r.r_binds)) in
-  String.concat " " (fabs @ [basic; res; nets; labels; binds])
+  let per_fabric name m = name ^ "=" ^ join (List.map (fun (f, t) -> s_of_n f ^ "." ^ s_of_n t) (sort_by_key m)) in
+  let tz = "Z=" ^ s_of_n r.r_tz in
+  let tts = "T=" ^ (match r.r_tts with None -> "-" | Some (f, v) -> s_of_n f ^ "." ^ s_of_n v) in
+  let subs = "S=" ^ join (List.map (fun (f, t) -> s_of_n f ^ "." ^ s_of_n t) r.r_subs) in
+  String.concat " " (fabs @ [basic; res; nets; labels; binds; tz; tts;
+                             per_fabric "C" r.r_icd; per_fabric "P" r.r_ota; per_fabric "E" r.r_scenes; subs])
 
 let kvop_str = function
   | KStore (k, _) -> "s" ^ s_of_n k
@@ -86,7 +97,7 @@ let run_s (f : string list) : string =
   let st = ref st0 in
   let log = ref [] in          (* whole key-value log, in order *)
   let skips = ref [] in        (* (first, last) cut positions inside a factory reset *)
-  let recs = List.map (fun (_, o) ->
+  let recs = List.map (fun (tok, o) ->
       let (st', evs) = c_step true !st o in
       let kvs = c_kvlog evs in
       let before = List.length !log in
@@ -100,7 +111,7 @@ let run_s (f : string list) : string =
         | EKv _ :: t -> ackpos (i + 1) t
         | EAck s :: _ -> Some (s, i) in
       let status, ack = match ackpos 0 evs with
-        | Some (Ok, i) -> "ok", string_of_int i
+        | Some (Ok, i) -> "ok", (match o with OSub _ -> "*" | _ -> string_of_int i)
         | Some (Refused, _) -> "no", "-"
         | None -> "-", "-" in
       let kvstr = match o with
@@ -110,7 +121,7 @@ let run_s (f : string list) : string =
             (if st'.s_kv = [] then "-" else String.concat "+" (List.map (fun (k, _) -> s_of_n k) (sort_by_key st'.s_kv)))
         | _ -> if kvs = [] then "-" else String.concat "," (List.map kvop_str kvs) in
       st := st';
-      Printf.sprintf "%s|%s|%s|%s|%d|%s" status kvstr ack (fs_str st'.s_fs) fin (cells_str st'.s_ram)) ops in
+      Printf.sprintf "%s|%s|%s|%s|%d|%s|%c" status kvstr ack (fs_str st'.s_fs) fin (cells_str st'.s_ram) tok.[0]) ops in
   let total = List.length !log in
   let cuts = ref [] in
   for k = 0 to total do
@@ -154,9 +165,11 @@ let parse_cells (s : string) : (n * n) list =
         let key = match name.[0] with
           | 'F' -> int_of_string (String.sub name 1 (String.length name - 1))
           | 'I' -> 256 | 'W' -> 258 | 'U' -> 259 | 'D' -> 260 | 'R' -> 267
+          | 'Z' -> 268 | 'T' -> 262 | 'C' -> 265 | 'P' -> 264 | 'E' -> 263 | 'S' -> 2048
           | _ -> 9999 in
         let dflt = match name.[0] with
-          | 'I' -> v = "0/-/-" | 'W' -> v = "0:-" | 'U' | 'D' | 'R' -> v = "-" | _ -> false in
+          | 'I' -> v = "0/-/-" | 'W' -> v = "0:-" | 'U' | 'D' | 'R' | 'T' | 'C' | 'P' | 'E' | 'S' -> v = "-"
+          | 'Z' -> v = "0" | _ -> false in
         Some (ni key, if dflt then N0 else intern (name ^ "=" ^ v))) (split_on ' ' s)
 
 let vname (c : n) : string =
@@ -182,7 +195,7 @@ let spec_s (f : string list) (line : string) : string =
   Hashtbl.reset intern_tbl;
   let ops = List.map (fun r ->
       match String.split_on_char '|' r with
-      | status :: kv :: ack :: fs :: fin :: cells :: _ ->
+      | status :: kv :: ack :: fs :: fin :: cells :: rest ->
         let is_reset = String.length kv >= 6 && String.sub kv 0 6 = "reset:" in
         let nkv = if kv = "-" then 0 else if is_reset then 0 else List.length (split_on ',' kv) in
         let left = if is_reset then
@@ -197,8 +210,9 @@ let spec_s (f : string list) (line : string) : string =
                     Some (n (List.hd (split_on ':' (String.sub fs 1 (String.length fs - 1))))));
           o_end = n fin;
           o_left = left;
+          o_best_effort = (match rest with k :: _ -> k = "D" | [] -> false);
           o_cells = parse_cells cells }
-      | _ -> { o_ok = false; o_nkv = N0; o_ack = None; o_fs = None; o_end = N0; o_left = None; o_cells = [] })
+      | _ -> { o_ok = false; o_nkv = N0; o_ack = None; o_fs = None; o_end = N0; o_left = None; o_best_effort = false; o_cells = [] })
       (List.filter (fun x -> x <> "") (split_on ';' ops_s)) in
   let cuts = List.map (fun r ->
       match String.split_on_char '|' r with
@@ -252,7 +266,7 @@ let () =
          else
            let left = List.map int_of_n (census_left (n hi)) in
            Printf.printf "K %s seeded %s okok left=%s stores=0 subs=%d subs_start=2048\n" id hi (ranges left)
-             (List.length reset_keys - 255 - 9)
+             (List.length reset_keys - 255 - 14)
        | _ -> ()
      done
    with End_of_file -> ())
